@@ -927,6 +927,16 @@ var (
 func genC10Hashes(t *rapid.T, label string) []uint64 {
 	n := rapid.SampledFrom([]int{0, 0, 1, 1, 2, 3}).Draw(t, label+"N")
 	var out []uint64
+	if rapid.IntRange(0, 119).Draw(t, label+"Huge") == 0 {
+		// a very large group: thousands of alert hashes make one entry of 60-110 KB, which every path (log, gossip,
+		// full state, snapshot, reload) must carry like any other
+		huge := rapid.SampledFrom([]int{6000, 7500, 11000}).Draw(t, label+"HugeN")
+		base := rapid.Uint64().Draw(t, label+"HugeBase") | 1<<63 // (ten-byte varints)
+		for i := 0; i < huge; i++ {
+			out = append(out, base+uint64(i)*2654435761)
+		}
+		return out
+	}
 	for i := 0; i < n; i++ {
 		if rapid.Bool().Draw(t, label+"Special") {
 			out = append(out, rapid.SampledFrom(c10Hashes).Draw(t, label))
@@ -1106,7 +1116,7 @@ func genC10Model(t *rapid.T) c10ModelScenario {
 	return sc
 }
 
-const c10ModelRule = "history of 1-24 (thorough: 1-60) operations on one real nflog.Log in a virtual-time bubble over 2 groups x 2 receiver indices: local Log (firing/resolved hashes; one kind in fourteen is a Log whose receiver data is not valid UTF-8 and which must fail without changing anything; store nil / fresh / derived from the queried entry and edited, receiver data of kinds int/float/string, expiry 0 or 1-300 s), Merge of full-state blobs (1-4 versions, distinct keys per blob) drawn with repetition from 1-10 (thorough: 1-24) versions authored by a second real Log at its own instants or hand-built (arbitrary expiry, legacy fields), GC, snapshot reload via reader or file, Query; advances 0-90 s, retention 5-120 s; all timestamps distinct and no expiry equal to an operation instant (ms residues). After every step every key's Query, the decoded MarshalBinary state and the broadcast of a local Log are compared with the reference LWW model (DESIGN A.3). Non-trivial: the history contains a merged version rejected as older or as expired AND a GC that removed something or a reload of a non-empty log."
+const c10ModelRule = "history of 1-24 (thorough: 1-60) operations on one real nflog.Log in a virtual-time bubble over 2 groups x 2 receiver indices: local Log (firing/resolved hashes, now and then 6000-11000 of them: one entry of 60-110 KB; one kind in fourteen is a Log whose receiver data is not valid UTF-8 and which must fail without changing anything; store nil / fresh / derived from the queried entry and edited, receiver data of kinds int/float/string, expiry 0 or 1-300 s), Merge of full-state blobs (1-4 versions, distinct keys per blob) drawn with repetition from 1-10 (thorough: 1-24) versions authored by a second real Log at its own instants or hand-built (arbitrary expiry, legacy fields), GC, snapshot reload via reader or file, Query; advances 0-90 s, retention 5-120 s; all timestamps distinct and no expiry equal to an operation instant (ms residues). After every step every key's Query, the decoded MarshalBinary state and the broadcast of a local Log are compared with the reference LWW model (DESIGN A.3). Non-trivial: the history contains a merged version rejected as older or as expired AND a GC that removed something or a reload of a non-empty log."
 
 func TestC10Model(t *testing.T) {
 	pbt.Run(t, pbt.Spec[c10ModelScenario]{
